@@ -256,6 +256,30 @@ Example C20_page_offset_nv :
   page_offset_gen {| rx := (53 # 5)%Q; ry := (-(53 # 5))%Q; rw := 1%Q; rh := 1%Q |} (from_scale (5 # 2)%Q (5 # 2)%Q) = (26, -26).
 Proof. reflexivity. Qed.
 
+(* --- round 5 (seed C20-16): string-valued option --languages: both tools hand every comma-separated item to
+   usvg::Options::languages as written (blanks around an item removed; case, duplicates and order kept).  The item operations,
+   separator, "every item kept" and "passed to Options unchanged" facts are SOURCE-DERIVED from both main.rs files. --- *)
+Theorem C20_usvg_languages_unchanged : forall arg,
+  cli_languages usvg_lang_separator usvg_lang_item_ops usvg_lang_all_items_kept usvg_lang_passed_unchanged arg = Some (spec_languages arg).
+Proof. exact usvg_languages_unchanged. Qed.
+Print Assumptions C20_usvg_languages_unchanged.
+
+Theorem C20_resvg_languages_unchanged : forall arg,
+  cli_languages resvg_lang_separator resvg_lang_item_ops resvg_lang_all_items_kept resvg_lang_passed_unchanged arg = Some (spec_languages arg).
+Proof. exact resvg_languages_unchanged. Qed.
+Print Assumptions C20_resvg_languages_unchanged.
+
+Theorem C20_languages_faithful_flags :
+  lang_ops_faithful usvg_lang_separator usvg_lang_item_ops usvg_lang_all_items_kept usvg_lang_passed_unchanged = true /\
+  lang_ops_faithful resvg_lang_separator resvg_lang_item_ops resvg_lang_all_items_kept resvg_lang_passed_unchanged = true.
+Proof. exact languages_faithful_flags. Qed.
+Print Assumptions C20_languages_faithful_flags.
+
+Example C20_languages_example :
+  cli_languages usvg_lang_separator usvg_lang_item_ops usvg_lang_all_items_kept usvg_lang_passed_unchanged "EN-us, de-DE,de-DE , zh-Hant"%string
+  = Some ["EN-us"; "de-DE"; "de-DE"; "zh-Hant"]%string.
+Proof. exact languages_example. Qed.
+
 Theorem C20_unwrap_ledger : unwrap_ledger_ok = true.
 Proof. exact unwrap_ledger. Qed.
 Print Assumptions C20_unwrap_ledger.
